@@ -227,6 +227,65 @@ func main() {
 		}
 	}
 
+	// 7. precompile.OnRunStart (through helpers of the packages precompile and statedb, in evaluation order): the
+	//    PrecompileCalled journal entry (SavePrecompileCalledJournalChange) is appended BEFORE the dirty balances are
+	//    flushed into the cache context (CommitCacheCtx) - a flush that fails half-way (SetAccBalance minted, the bank
+	//    refuses a blocked recipient) is then undone by the revert of the failing call
+	journalBeforeFlush := false
+	{
+		pf := Funcs(ParseDir(repo + "/x/evm/precompile"))
+		sf := Funcs(ParseDir(repo + "/x/evm/statedb"))
+		targets := map[string]bool{"SavePrecompileCalledJournalChange": true, "CommitCacheCtx": true}
+		var order []string
+		seen := map[*ast.FuncDecl]bool{}
+		var walk func(f *ast.FuncDecl, depth int)
+		walk = func(f *ast.FuncDecl, depth int) {
+			if f == nil || f.Body == nil || seen[f] {
+				return
+			}
+			seen[f] = true
+			ast.Inspect(f.Body, func(n ast.Node) bool {
+				c, ok := n.(*ast.CallExpr)
+				if !ok {
+					return true
+				}
+				nm := calleeName(c)
+				if targets[nm] {
+					// arguments are evaluated first
+					for _, a := range c.Args {
+						ast.Inspect(a, func(m ast.Node) bool {
+							if cc, ok := m.(*ast.CallExpr); ok && targets[calleeName(cc)] {
+								order = append(order, calleeName(cc))
+							}
+							return true
+						})
+					}
+					order = append(order, nm)
+					return false
+				}
+				if depth > 0 {
+					if h, ok := pf[nm]; ok && h != f {
+						walk(h, depth-1)
+					} else if h, ok := sf[nm]; ok && h != f && nm != "Commit" && nm != "commitCtx" {
+						walk(h, depth-1)
+					}
+				}
+				return true
+			})
+		}
+		walk(pf["OnRunStart"], 3)
+		js, fl := -1, -1
+		for i, nm := range order {
+			if nm == "SavePrecompileCalledJournalChange" && js < 0 {
+				js = i
+			}
+			if nm == "CommitCacheCtx" && fl < 0 {
+				fl = i
+			}
+		}
+		journalBeforeFlush = js >= 0 && fl >= 0 && js < fl
+	}
+
 	one := big.NewInt(1)
 	fmt.Println("Require Import Nib.C05.Facts.")
 	fmt.Println("From Coq Require Import String List ZArith. Import ListNotations. Open Scope string_scope.")
@@ -251,5 +310,6 @@ func main() {
 	fmt.Printf("  k_leftover_is_limit_minus_used := %s;\n", CoqBool(leftover))
 	fmt.Printf("  k_refund_price_is_effective_price := %s;\n", CoqBool(refundPrice))
 	fmt.Printf("  k_sync_only_evm_addresses := %s;\n", CoqBool(syncOnlyEvm))
+	fmt.Printf("  k_journal_before_flush := %s;\n", CoqBool(journalBeforeFlush))
 	fmt.Printf("  k_refund_cap_applied := %s |}.\n", CoqBool(capApplied))
 }
